@@ -52,13 +52,20 @@ fn inr(x: i64, lo: i64, hi: i64) -> bool {
   x >= lo && x <= hi
 }
 
+// NOTE on shapes: only LEAF filters held on the stack can be evaluated.  `Filter`
+// trees keep their children in Box/Vec (heap), where CBMC loses the enum payload
+// constants: `filter_matches` is then explored for every variant at every
+// recursion level (And/Or/Not/Nested inside each other) and does not finish
+// (measured: 900 s timeouts for Not(range), Or([..]) and sibling Nested clauses).
+
 //@ props: C08
 //@ tier: quick
-//@ funcs: query::filters::passes_filter, passes_filters, passes_filters_at, filter_matches; index::fastfields::FastFieldsReader::matches_i64_range, matches_f64_range, doc_range
-//@ symbolic: a single-valued i64 field (any value or missing), a multi-valued i64 field with 2 values, a single-valued f64 field (finite), and the inclusive bounds of three range filters
-//@ bounds: 1 document; 3 flat numeric fields; filter shapes: range, Not, Or, And, range on an unknown field, range of the wrong numeric type
-//@ oracle: a range is inclusive and matches when ANY value of a multi-valued field lies inside; a missing value never matches; Not/Or/And are the boolean connectives; a field that does not exist (or has another type) never matches
-//@ assumes: Vec-backed container models for the field map and the nested-clause grouping map
+//@ funcs: query::filters::passes_filter, filter_matches (leaf arms); index::fastfields::FastFieldsReader::matches_i64_range, matches_f64_range, doc_range
+//@ symbolic: a single-valued i64 field (any value or missing), a multi-valued i64 field with 2 values, a single-valued f64 field (finite), and the inclusive bounds of the range filters
+//@ bounds: 1 document; 3 flat numeric fields; leaf filters only (range, range on an unknown field, range of the wrong numeric type)
+//@ oracle: a range is inclusive and matches when ANY value of a multi-valued field lies inside; a missing value never matches; a field that does not exist (or has another numeric type) never matches
+//@ assumes: Vec-backed container model for the field map
+//@ outside: And / Or / Not / Nested combinators (see the note above)
 #[kani::proof]
 #[kani::unwind(6)]
 fn c08_flat_numeric_filters() {
@@ -77,31 +84,29 @@ fn c08_flat_numeric_filters() {
   let rn = has_n && inr(x, lo, hi);
   let rm = inr(y0, lo, hi) || inr(y1, lo, hi);
   let rf = z >= flo && z <= fhi;
-  assert!(passes_filter(&r, 0, &range_i("n", lo, hi)) == rn, "C08: i64 range on a single-valued field");
-  assert!(passes_filter(&r, 0, &range_i("m", lo, hi)) == rm, "C08: i64 range must match when any value of a multi-valued field is inside");
+  let f_n = range_i("n", lo, hi);
+  let f_m = range_i("m", lo, hi);
+  let f_zz = range_i("zz", lo, hi);
+  let f_wrong = range_i("f", lo, hi);
   let ff = Filter::F64Range {
     field: s("f"),
     min: flo,
     max: fhi,
   };
+  assert!(passes_filter(&r, 0, &f_n) == rn, "C08: i64 range on a single-valued field");
+  assert!(passes_filter(&r, 0, &f_m) == rm, "C08: i64 range must match when any value of a multi-valued field is inside");
   assert!(passes_filter(&r, 0, &ff) == rf, "C08: f64 range must be inclusive");
-  assert!(!passes_filter(&r, 0, &range_i("zz", lo, hi)), "C08: range on an unknown field must not match");
-  assert!(!passes_filter(&r, 0, &range_i("f", lo, hi)), "C08: i64 range on an f64 field must not match");
-  let not_n = Filter::Not(Box::new(range_i("n", lo, hi)));
-  assert!(passes_filter(&r, 0, &not_n) == !rn, "C08: Not");
-  let or = Filter::Or(v2(range_i("n", lo, hi), range_i("m", lo, hi)));
-  assert!(passes_filter(&r, 0, &or) == (rn || rm), "C08: Or");
-  let and = v2(range_i("n", lo, hi), range_i("m", lo, hi));
-  assert!(passes_filters(&r, 0, &and) == (rn && rm), "C08: top-level filter list is a conjunction");
-  let and_f = Filter::And(and);
-  assert!(passes_filter(&r, 0, &and_f) == (rn && rm), "C08: And");
+  assert!(!passes_filter(&r, 0, &f_zz), "C08: range on an unknown field must not match");
+  assert!(!passes_filter(&r, 0, &f_wrong), "C08: i64 range on an f64 field must not match");
+  assert!(!passes_filter(&r, 1, &f_m), "C08: a document without values must not match");
   kani::cover!(rm && !inr(y0, lo, hi), "only the second value of the multi-valued field matches");
   kani::cover!(has_n && x == hi && rn, "upper bound is inclusive");
   kani::cover!(!has_n, "missing value");
   std::mem::forget(r);
-  std::mem::forget(not_n);
-  std::mem::forget(or);
-  std::mem::forget(and_f);
+  std::mem::forget(f_n);
+  std::mem::forget(f_m);
+  std::mem::forget(f_zz);
+  std::mem::forget(f_wrong);
   std::mem::forget(ff);
 }
 
@@ -173,17 +178,18 @@ fn c08_keyword_filters_case_insensitive() {
 
 //@ props: C08
 //@ tier: quick
-//@ funcs: query::filters::passes_filter, passes_filters, passes_filters_at, nested_group_passes, nested_filter_passes, filter_matches; index::fastfields::FastFieldsReader::nested_object_count, nested_parents, nested_i64_values
+//@ funcs: query::filters::nested_filter_passes, filter_matches (leaf arms with an object index); index::fastfields::FastFieldsReader::nested_object_count, nested_parents, nested_i64_values
 //@ symbolic: a nested path with 2 objects, each holding one x and one y value (any i64); the bounds of two range clauses
-//@ bounds: 1 document, 2 objects, 2 properties; shapes: Nested(range), sibling Nested clauses on one path under And (top-level list and And node), Nested(And), Nested(Not), Or of Nested, Not(Nested)
-//@ oracle: a nested clause holds iff ONE object satisfies it; sibling nested clauses on the same path under And must be satisfied by the SAME object; Or/Not compose outside the object binding
-//@ assumes: container models; nested_count_key / nested_parent_key / qualified_field replaced by string-concatenation equivalents (the format! machinery does not terminate in reasonable time)
+//@ bounds: 1 document, 2 objects, 2 properties; one leaf clause per nested filter
+//@ oracle: a leaf clause evaluated for object i looks at the values of object i only; a nested clause holds iff SOME object of the path satisfies it; a path without objects never matches
+//@ assumes: container model; nested_count_key / nested_parent_key / qualified_field replaced by string-concatenation equivalents (the format! machinery does not terminate in reasonable time)
+//@ outside: sibling nested clauses under And binding to the same object, nested paths inside nested paths (Filter trees on the heap, see the note above); index-time construction of the nested columns
 #[kani::proof]
 #[kani::unwind(6)]
 #[kani::stub(crate::index::fastfields::nested_count_key, concat_nested_count_key)]
 #[kani::stub(crate::index::fastfields::nested_parent_key, concat_nested_parent_key)]
 #[kani::stub(qualified_field, concat_qualified_field)]
-fn c08_nested_same_object_binding() {
+fn c08_nested_leaf_per_object() {
   let x: [i64; 2] = kani::any();
   let y: [i64; 2] = kani::any();
   let (a, b, c, d): (i64, i64, i64, i64) = (kani::any(), kani::any(), kani::any(), kani::any());
@@ -191,35 +197,22 @@ fn c08_nested_same_object_binding() {
   add_nested_count(&mut r, "o", 2);
   add_i64_nested_single(&mut r, "o.x", v2(x[0], x[1]));
   add_i64_nested_single(&mut r, "o.y", v2(y[0], y[1]));
-  let rx = |i: usize| inr(x[i], a, b);
-  let ry = |i: usize| inr(y[i], c, d);
-  let nx = || nested("o", range_i("x", a, b));
-  let ny = || nested("o", range_i("y", c, d));
-  let f1 = nx();
-  assert!(passes_filter(&r, 0, &f1) == (rx(0) || rx(1)), "C08: nested clause must hold for some object");
-  let same = (rx(0) && ry(0)) || (rx(1) && ry(1));
-  let list = v2(nx(), ny());
-  assert!(passes_filters(&r, 0, &list) == same, "C08: sibling nested clauses on one path must bind to the same object");
-  let and_node = Filter::And(list);
-  assert!(passes_filter(&r, 0, &and_node) == same, "C08: sibling nested clauses under And must bind to the same object");
-  let inner_and = nested("o", Filter::And(v2(range_i("x", a, b), range_i("y", c, d))));
-  assert!(passes_filter(&r, 0, &inner_and) == same, "C08: And inside a nested clause is evaluated per object");
-  let inner_not = nested("o", Filter::Not(Box::new(range_i("x", a, b))));
-  assert!(passes_filter(&r, 0, &inner_not) == (!rx(0) || !rx(1)), "C08: Not inside a nested clause is evaluated per object");
-  let or = Filter::Or(v2(nx(), ny()));
-  assert!(passes_filter(&r, 0, &or) == (rx(0) || rx(1) || ry(0) || ry(1)), "C08: Or of nested clauses");
-  let outer_not = Filter::Not(Box::new(nx()));
-  assert!(passes_filter(&r, 0, &outer_not) == !(rx(0) || rx(1)), "C08: Not of a nested clause");
-  let missing = nested("p", range_i("x", a, b));
-  assert!(!passes_filter(&r, 0, &missing), "C08: nested clause on a path without objects must not match");
-  kani::cover!(rx(0) && ry(1) && !same, "the two clauses are satisfied by different objects only");
-  kani::cover!(same && rx(1), "second object satisfies both clauses");
+  let fx = range_i("x", a, b);
+  let fy = range_i("y", c, d);
+  // per-object evaluation binds to that object's values only
+  assert!(filter_matches(&r, 0, &fx, "o", Some(0)) == inr(x[0], a, b), "C08: clause for object 0 must look at object 0");
+  assert!(filter_matches(&r, 0, &fx, "o", Some(1)) == inr(x[1], a, b), "C08: clause for object 1 must look at object 1");
+  assert!(filter_matches(&r, 0, &fy, "o", Some(1)) == inr(y[1], c, d), "C08: second property of object 1");
+  assert!(!filter_matches(&r, 0, &fx, "o", Some(2)), "C08: object index out of range must not match");
+  // a nested clause holds iff some object satisfies it
+  assert!(nested_filter_passes(&r, 0, "", "o", None, &fx) == (inr(x[0], a, b) || inr(x[1], a, b)), "C08: nested clause must hold for some object");
+  assert!(nested_filter_passes(&r, 0, "", "o", None, &fy) == (inr(y[0], c, d) || inr(y[1], c, d)), "C08: nested clause on the second property");
+  assert!(!nested_filter_passes(&r, 0, "", "p", None, &fx), "C08: nested clause on a path without objects must not match");
+  // top-level (unbound) evaluation of a nested column: any object
+  assert!(r.matches_i64_range("o.x", 0, a, b) == (inr(x[0], a, b) || inr(x[1], a, b)), "C08: unbound range over a nested column");
+  kani::cover!(inr(x[0], a, b) && !inr(x[1], a, b), "only the first object matches");
+  kani::cover!(!inr(x[0], a, b) && inr(x[1], a, b), "only the second object matches");
   std::mem::forget(r);
-  std::mem::forget(f1);
-  std::mem::forget(and_node);
-  std::mem::forget(inner_and);
-  std::mem::forget(inner_not);
-  std::mem::forget(or);
-  std::mem::forget(outer_not);
-  std::mem::forget(missing);
+  std::mem::forget(fx);
+  std::mem::forget(fy);
 }
